@@ -113,6 +113,7 @@ func c13(c *orch.Ctx) (*report.Result, error) {
 			prof := synth.Profiles["fullspec"]
 			prof.MaxControllers, prof.MultiFile, prof.MultiPkg = 4, true, true
 			prof.RouteStyle = "clean"
+			prof.SameNameTypes = i%3 == 0 // same-named declarations in several packages: ties for any name-keyed ordering
 			p := synth.Gen(rng.New(c.Seed, "C13", fmt.Sprint(i)), prof, fmt.Sprintf("p%04d", i), lab.ModPath)
 			if i%2 == 1 {
 				p.Config.OpenAPI = "3.1.0"
